@@ -245,6 +245,12 @@ func main() {
 								s.Name = ast.NewIdent("sync")
 							}
 						}
+						if s.Path.Value == `"sort"` {
+							s.Path.Value = `"verif/simrt/ssort"`
+							if s.Name == nil {
+								s.Name = ast.NewIdent("sort")
+							}
+						}
 					}
 				}
 			}
